@@ -18,6 +18,7 @@ from collections import defaultdict
 from types import SimpleNamespace
 
 from harness.common import leanproc
+from harness.common import serial_c14 as S2
 from harness.common.shrink import ddmin
 from harness.common.util import REPO, InfraError
 
@@ -25,8 +26,8 @@ ID = "C14"
 LEAN_MODULES = ["MpfVerif.Props.C14"]
 PROPS_FILE = "MpfVerif/Props/C14.lean"
 MANIFEST = {
-  "text": "Proof on byte-level Lean models of the three incremental serial decoders and the FAST command writer: (1) for every byte-at-a-time decoder feed(a++b) = feed(feed a) b, hence frames and carried buffer of the FAST ('\\r') and PKONE ('E') decoders are independent of how the bytes were split into reads, and after any noise one delimiter restores exact in-order delivery; (2) a transcription of OPP's _parse_msg (part_msg, _lost_synch, the strlen>2 threshold, 7/11-byte frames, EOM) always terminates and, on every chunking, emits exactly the frames of a byte-at-a-time automaton on the concatenated bytes, its carried state being equal after normalisation (the raw carried pair does depend on the chunking); (3) the CRC-8 table regenerated from opp_rs232_intf.py on every run is a permutation (kernel-checked per entry) and linear (kernel-checked) and therefore every single-byte error and every burst error confined to 8 consecutive bits, in data or CRC byte of a frame, is detected; a frame with a wrong CRC changes no card state and produces no switch event; after any frame the reported switch states mirror old_state and a valid frame sets it to its payload; a FAST switch report sets exactly that switch, and after any list of SA: snapshots and -L:/ /L: events the state of every configured switch is what the last report mentioning it said (event: the reported logical state; snapshot: invert xor bit) while hw_switch_data is the last snapshot; (4) after any garbage plus 11 idle bytes the OPP automaton decodes every following well-formed frame; every PKONE frame is handled without raising (non-UTF-8 frames are skipped) and well-formed frames after noise are delivered; (5) the writer keeps queue order at every point of every run. Flow control is a known finding (the writer never pauses; a lost response is never retried): proved only for disciplined senders resp. for responses that arrive, with witnesses. The models are tied to the real communicators by a correspondence run (incl. the real FAST platform booted on the repo's mock serial with the real switch controller for mixed snapshot/event sequences; generated streams, chunkings down to single bytes, corruptions, malformed frames, writer schedules) on every check.",
-  "note": "Trusted: Lean kernel + {propext, Classical.choice, Quot.sound}; the hand-written models in Model/Framing.lean (validated only by differential runs); the generator that extracts CRC8_LOOKUP; asyncio Queue/Event semantics for the writer. Known findings: the FAST writer does not pause for confirmations and never retries a lost response (D7); a frame that is not UTF-8 makes the FAST reader raise (deliberate re-raise outside the connect phase). Not modelled: config-phase FAST responses (ID/NN/DL/SL/CH), SA: snapshots whose announced byte count is consistent but which cover fewer switches than are configured (needs two corruptions; KeyError after a partial update), PKONE payload parsing and its in-flight counter, ignore_decode_errors=True (connect phase).",
+  "text": "Proof on byte-level Lean models of the three incremental serial decoders and the FAST command writer: (1) for every byte-at-a-time decoder feed(a++b) = feed(feed a) b, hence frames and carried buffer of the FAST ('\\r') and PKONE ('E') decoders are independent of how the bytes were split into reads, and after any noise one delimiter restores exact in-order delivery; (2) a transcription of OPP's _parse_msg (part_msg, _lost_synch, the strlen>2 threshold, 7/11-byte frames, EOM) always terminates and, on every chunking, emits exactly the frames of a byte-at-a-time automaton on the concatenated bytes, its carried state being equal after normalisation (the raw carried pair does depend on the chunking); (3) the CRC-8 table regenerated from opp_rs232_intf.py on every run is a permutation (kernel-checked per entry) and linear (kernel-checked) and therefore every single-byte error and every burst error confined to 8 consecutive bits, in data or CRC byte of a frame, is detected; a frame with a wrong CRC changes no card state and produces no switch event; after any frame the reported switch states mirror old_state and a valid frame sets it to its payload; a FAST switch report sets exactly that switch, and after any list of SA: snapshots and -L:/ /L: events the state of every configured switch is what the last report mentioning it said (event: the reported logical state; snapshot: invert xor bit) while hw_switch_data is the last snapshot; (4) after any garbage plus 11 idle bytes the OPP automaton decodes every following well-formed frame; every PKONE frame is handled without raising (non-UTF-8 frames are skipped) and well-formed frames after noise are delivered; (5) the writer keeps queue order at every point of every run. Flow control is a known finding (the writer never pauses; a lost response is never retried): proved only for disciplined senders resp. for responses that arrive, with witnesses. The models are tied to the real communicators by a correspondence run (incl. the real FAST platform booted on the repo's mock serial with the real switch controller for mixed snapshot/event sequences; generated streams, chunkings down to single bytes, corruptions, malformed frames, writer schedules) on every check. Session 3 (Model/Framing2.lean) adds the protocol code behind the frame decoders: (6) PKONE _parse_msg with its in-flight counter and send_ready, process_received_message, receive_switch (PSW) and receive_all_switches (PSA) as one byte-at-a-time automaton over the whole state: state and observations are independent of the chunking; a frame changes the reported switch table only if it is exactly PSW+board digit+two switch digits+0/1 (truncated, over-long, non-numeric payloads report nothing) and hw_switch_data only if it is a well-formed PSA; after any frame sequence the state last told for a switch is that of the last well-formed PSW for it; the counter goes down by the number of delimiters, never below zero, send_ready is never cleared by the reader; (7) OPP initialisation: readuntil(EOM, 7n) returns the complete reply of n cards whatever its bytes are (the old minimum 6 cut a reply whose CRC byte is 0xff: witness), the loop of get_gen2_cfg_resp / vers_resp over the merged responses of any number of chained cards accepts exactly the well-formed responses in chain order, and on a bad CRC exactly the cards before it (nothing from the damaged response or after it); (8) FAST configuration-phase dispatch (ID: CH: SL: DL: SA: at boot, !B: XX:) as a delimiter automaton: chunking-independent, and after any garbage and one CR every following response is dispatched as if it had arrived alone; (9) several callers of send_and_wait_for_response_processed queued behind no_response_waiting: gated commands on the port followed by the callers still waiting are exactly the callers in call order at every point of every run. Tied by correspondence to the real PKONEHardwarePlatform/PKONESerialCommunicator, the real OPPSerialCommunicator._identify_connection fed through a real asyncio.StreamReader by a simulated card chain under generated chunkings, the real OppHardwarePlatform init handlers on merged/corrupted/truncated replies, the real FastNetNeuronCommunicator and the real writer task.",
+  "note": "Trusted: Lean kernel + {propext, Classical.choice, Quot.sound}; the hand-written models in Model/Framing.lean (validated only by differential runs); the generator that extracts CRC8_LOOKUP; asyncio Queue/Event semantics for the writer. Known findings: the FAST writer does not pause for confirmations and never retries a lost response (D7); a frame that is not UTF-8 makes the FAST reader raise (deliberate re-raise outside the connect phase). Not modelled: FAST NN: (I/O board discovery) responses and the firmware-version syntax of ID:, SA: snapshots whose announced byte count is consistent but which cover fewer switches than are configured (needs two corruptions; KeyError after a partial update), ignore_decode_errors=True (connect phase); OPP initial input reads (read_gen2_inp_resp_initial / matrix) are driven on the real code and judged by the oracle only (no Lean model of their own), the OPP serial-number read (_read_id) and inventory replies carry no CRC and are only generated intact; PKONE connect phase (PCN/PCB regex parsing, reset) is not driven; the platforms are built by their own __init__ on a stub machine (recording switch controller), not booted inside a MachineController (the repo's PKONE test scaffolding does not boot on this Python).",
   "technique": "Lean 4 theorems (induction over byte lists, simulation between loop transcription and automaton, decide +kernel over the regenerated CRC table) + differential correspondence with the real parsers and writer task",
   "translated": True,
  }
@@ -37,7 +38,17 @@ RULE = ("cases: (a) FAST streams of 3-12 frames (-L:/ /L: switch reports, SA: re
         "cards, with payload/CRC corruptions, header corruptions, garbage runs, truncations, and a resync stream "
         "(garbage + 11 EOM + valid frames); (d) writer schedules over send_with_confirmation/send_and_forget/run/"
         "confirmation-received, both free and disciplined; (d2) on the REAL FAST platform booted on the repo's mock serial (TestFastNeuron scaffolding, real switch controller): sequences of 4-14 valid frames mixing SA: snapshots (random, identical to an earlier one, or an earlier one with configured switches flipped so that it contradicts the events in between), -L:/ /L: events on NO and NC switches (15% dropped before delivery), malformed and ignored frames, under whole / single-byte / random chunkings; (e) send_and_wait_for_response_processed under time-outs/responses on a virtual clock. non-trivial = more than one chunk and (a corruption, a "
-        "malformed frame, lost synch, or >= 2 frames); distinct = canonical JSON of (kind, stream, chunking)")
+        "malformed frame, lost synch, or >= 2 frames); distinct = canonical JSON of (kind, stream, chunking); "
+        "session 3: (f) PKONE streams of 3-12 frames (PSW reports on 5 boards, PSA reports of 0/8/35 switches, PWD/PWF/PCN/"
+        "PCB/PXX/unknown commands, empty frames, 17 malformed payload shapes: truncated, over-long, state 2-9, non-digits) "
+        "with 0-2 corruptions, start values of the in-flight counter 0..14 / send_ready / read_task, 5 chunkings; (g) OPP "
+        "chains of 1-4 cards (random wings incl. 15% whose GET_GEN2_CFG CRC byte is 0xff, versions incl. a 0xff byte, input "
+        "words incl. ff ff ff ff) answered by a simulated chain through a real StreamReader: whole / single bytes / 2 random "
+        "chunkings of every reply; (h) init replies (GET_GEN2_CFG / GET_VERS of the chain) handed to "
+        "process_received_message intact, with one damaged byte per frame, a changed command byte, a deletion of 1-7 bytes, or "
+        "merged with the next reply; (i) FAST config-phase streams (ID: CH: SL: DL: boot SA: !B: XX:, 24 malformed shapes "
+        "incl. two replies run together) with 0-2 corruptions, 5 chunkings, frame-by-frame re-decode as oracle; (j) 3-12 "
+        "calls / send_and_forget / responses on the real communicator + writer task")
 TRUSTED = [
     "Model/Framing.lean is hand-written; tied to mpf/platforms/fast/communicators/{base,net_neuron}.py, "
     "mpf/platforms/opp/{opp_serial_communicator,opp}.py, mpf/platforms/pkone/pkone_serial_communicator.py by "
@@ -45,6 +56,12 @@ TRUSTED = [
     "modelled, not verified: bytes.decode (any byte >= 0x80 in the generated alphabet is an invalid UTF-8 sequence), "
     "int(x, 16) and bytearray.fromhex on strict hex strings, asyncio.Queue/Event for the writer task",
     "the stub machine around the communicators (recording switch controller, logging disabled)",
+    "Model/Framing2.lean is hand-written; tied to mpf/platforms/pkone/{pkone_serial_communicator,pkone}.py, "
+    "mpf/platforms/opp/{opp_serial_communicator,opp}.py (init phase), mpf/platforms/fast/communicators/{base,net_neuron}.py "
+    "(config-phase processors, no_response_waiting gate) by correspondence on every run",
+    "modelled, not verified: asyncio.StreamReader.readexactly/feed_data (byte stream abstraction under readuntil), "
+    "asyncio.Event wake-up order (FIFO of waiters), Python int() on ASCII digit strings, str.split(',') / str.split()",
+    "the simulated OPP card chain (harness/common/serial_c14.py chain_reply) stands for the hardware",
 ]
 ASSUMPTIONS = [
     "FAST/PKONE corruption bytes never form valid multi-byte UTF-8, whitespace, sign, underscore or 0x prefixes "
@@ -55,6 +72,10 @@ ASSUMPTIONS = [
     "there the mock boards answer nothing after boot and attract mode is stopped (the config's start button cannot "
     "start a game without ball devices)",
     "OPP: cards have been initialised (old_state is an int); one chain",
+    "PKONE/FAST-config corruption bytes never form valid multi-byte UTF-8, blanks, signs, underscores (Python's int() "
+    "accepts those; the models' digit parsers are strict)",
+    "CRC-8 promises detection of one damaged byte (or an 8-bit burst) per frame: the 'corrupt frame accepted' oracle of "
+    "the OPP init replies damages at most one byte per frame; deletions are judged by the correspondence only",
 ]
 
 NSW = 16
@@ -1080,6 +1101,25 @@ def run(ctx):
             writer_case(ctx, ctx.rng("writer", i), model)
         for i in range(ctx.n(80, 800)):
             retry_case(ctx, ctx.rng("retry", i), model)
+        # ---- session 3: protocol code behind the frame decoders (harness/common/serial_c14.py, Model/Framing2.lean)
+        S2.pk2_case(ctx, ctx.rng("w-pk2"), model, ncorr=0, frames=[
+            ("PSW0071", "sw"), ("PSW007", "malformed"), ("PSW", "malformed"), ("PWF", "other"), ("PSA01x0", "malformed"),
+            ("PSW0070", "sw")])
+        S2.opp_init_case(ctx, ctx.rng("w-oppinit"), model, cards=[
+            {"addr": 0x21, "wings": [2, 7, 10, 2], "vers": [2, 1, 0, 0], "inp": 0xffffffff, "mtx": 0xffffffffffffffff}])
+        S2.fcfg_case(ctx, ctx.rng("w-fcfg"), model, ncorr=0, frames=[
+            ("ID:NET FP-CPU-2000 02.13", "id"), ("DL:00,81,00,10,0A,FF,00,00,00DL:01,81,00,10,0A,FF,00,00,00", "malformed"),
+            ("SL:00,00,00,00", "sl"), ("CH:P", "ch")])
+        for i in range(ctx.n(500, 5000)):
+            S2.pk2_case(ctx, ctx.rng("pk2", i), model)
+        for i in range(ctx.n(120, 1500)):
+            S2.opp_init_case(ctx, ctx.rng("oppinit", i), model)
+        for i in range(ctx.n(400, 4000)):
+            S2.opp_msg_case(ctx, ctx.rng("oppmsg", i), model)
+        for i in range(ctx.n(350, 4000)):
+            S2.fcfg_case(ctx, ctx.rng("fcfg", i), model)
+        for i in range(ctx.n(300, 3000)):
+            S2.gate_case(ctx, ctx.rng("gate", i), model)
         rig = FastRig()
         try:
             z = "00" * 14
@@ -1100,7 +1140,15 @@ def run(ctx):
 def replay(ctx, rep):
     case = rep["case"]
     sig = rep.get("signature", "")
-    if case["kind"] == "fast":
+    if case["kind"] == "pk2":
+        S2.pk2_replay(ctx, case)
+    elif case["kind"] in ("opp-init", "opp-msg"):
+        S2.opp_init_replay(ctx, case)
+    elif case["kind"] == "fast-cfg":
+        S2.fcfg_replay(ctx, case)
+    elif case["kind"] == "gate":
+        S2.gate_replay(ctx, case)
+    elif case["kind"] == "fast":
         data = bytes.fromhex(case.get("shrunk") or case["data"])
         for chunks in ([data], [bytes.fromhex(c) for c in case.get("chunks", [])] or [data]):
             toks, escapes, _, _, _ = fast_run(chunks)
